@@ -13,7 +13,7 @@
     src/engine/core/filter/condition_evaluator.rs, src/engine/core/read/flow/shard_pipeline.rs,
     src/command/handlers/store.rs (type_allows_value). *)
 From Coq Require Import ZArith NArith List Bool.
-From Snel Require Import Base.Bytes Model.Float64 Model.RustText Model.Json Gen.Params.
+From Snel Require Import Base.Bytes Model.Float64 Model.RustText Model.JsonV7 Gen.Params.
 Import ListNotations.
 Open Scope Z_scope.
 
